@@ -220,6 +220,10 @@ let dispatch (cmd : string) (t : tree) : tree =
   | "lagr_grad", [gs; x; ys] ->
       let gs = r_list r_grid gs and x = r_qs x and ys = r_qs ys in
       w_list (fun k -> w_q (QcRun.q_tgrad (nat_of_int k) gs x ys)) (SL.init (SL.length gs) (fun k -> k))
+  | "lagr_hess", [gs; x; ys] ->
+      let gs = r_list r_grid gs and x = r_qs x and ys = r_qs ys in
+      let d = SL.length gs in
+      w_list (fun m -> w_list (fun n -> w_q (QcRun.q_thess (nat_of_int m) (nat_of_int n) gs x ys)) (SL.init d (fun k -> k))) (SL.init d (fun k -> k))
   | "misc_predict", [terms; x] ->
       let terms = r_list r_term terms and x = r_qs x in
       let absterms = SL.map (fun (w, (gs, ys)) -> (w, (gs, ys))) terms in
